@@ -170,7 +170,7 @@ func (o *opCtx) buildStatement(rng *rand.Rand, n int) (label string, Cs []*bande
 	zs = genIndices(rng, n, rng.Intn(10))
 	for i := 0; i < n; i++ {
 		j := rng.Intn(m)
-		c := Rerepresent(&comms[j], rng.Intn(6), rng)
+		c := Rerepresent(&comms[j], rng.Intn(NumRepKinds), rng)
 		Cs = append(Cs, &c)
 		fs = append(fs, polys[j]) // openings of one polynomial share its slice (as a Verkle client does)
 		y := polys[j][zs[i]]
